@@ -76,9 +76,110 @@ pub struct Weierstrass { ℘: u8 }
 #[derive(Serialize, Deserialize, Debug, PartialEq)]
 pub struct Größe { größe: u8, λ: Option<i8> }
 
+/// a self-describing target: whatever `deserialize_any` presents (what untagged enums, `serde_json::Value`-like
+/// types and transcoders see)
+#[derive(Debug, PartialEq, Clone)]
+pub enum AnyVal { Unit, Bool(bool), I(i64), U(u64), F(u64), Char(char), Str(String), Bytes(Vec<u8>), Seq(Vec<AnyVal>) }
+impl<'de> Deserialize<'de> for AnyVal {
+    fn deserialize<D: serde::Deserializer<'de>>(d: D) -> Result<Self, D::Error> {
+        struct V;
+        impl<'de> serde::de::Visitor<'de> for V {
+            type Value = AnyVal;
+            fn expecting(&self, f: &mut std::fmt::Formatter) -> std::fmt::Result { f.write_str("anything") }
+            fn visit_unit<E>(self) -> Result<AnyVal, E> { Ok(AnyVal::Unit) }
+            fn visit_bool<E>(self, b: bool) -> Result<AnyVal, E> { Ok(AnyVal::Bool(b)) }
+            fn visit_i64<E>(self, n: i64) -> Result<AnyVal, E> { Ok(AnyVal::I(n)) }
+            fn visit_u64<E>(self, n: u64) -> Result<AnyVal, E> { Ok(AnyVal::U(n)) }
+            fn visit_f64<E>(self, n: f64) -> Result<AnyVal, E> { Ok(AnyVal::F(n.to_bits())) }
+            fn visit_char<E>(self, c: char) -> Result<AnyVal, E> { Ok(AnyVal::Char(c)) }
+            fn visit_str<E>(self, s: &str) -> Result<AnyVal, E> { Ok(AnyVal::Str(s.to_string())) }
+            fn visit_bytes<E>(self, b: &[u8]) -> Result<AnyVal, E> { Ok(AnyVal::Bytes(b.to_vec())) }
+            fn visit_seq<A: serde::de::SeqAccess<'de>>(self, mut a: A) -> Result<AnyVal, A::Error> {
+                let mut out = Vec::new();
+                while let Some(x) = a.next_element::<AnyVal>()? { out.push(x); if out.len() > 100_000 { break; } }
+                Ok(AnyVal::Seq(out))
+            }
+        }
+        d.deserialize_any(V)
+    }
+}
+
+/// what `deserialize_any` must present for a value: atoms as themselves, a vector as the sequence of its elements,
+/// a pair as the two-element sequence (car, cdr) (pinned by the crate's own test `test_deserialize_any_cons`),
+/// the empty list as the empty sequence, #nil as unit; symbols and keywords are rejected with a data error
+fn any_view(v: &Value) -> Option<AnyVal> {
+    Some(match v {
+        Value::Nil => AnyVal::Unit,
+        Value::Null => AnyVal::Seq(vec![]),
+        Value::Bool(b) => AnyVal::Bool(*b),
+        Value::Number(n) => if let Some(u) = n.as_u64() { AnyVal::U(u) } else if let Some(i) = n.as_i64() { AnyVal::I(i) } else { AnyVal::F(n.as_f64().unwrap().to_bits()) },
+        Value::Char(c) => AnyVal::Char(*c),
+        Value::String(s) => AnyVal::Str(s.to_string()),
+        Value::Bytes(b) => AnyVal::Bytes(b.to_vec()),
+        Value::Symbol(_) | Value::Keyword(_) => return None,
+        Value::Cons(c) => AnyVal::Seq(vec![any_view(c.car())?, any_view(c.cdr())?]),
+        Value::Vector(xs) => AnyVal::Seq(xs.iter().map(any_view).collect::<Option<Vec<_>>>()?),
+    })
+}
+
+fn any_checks(r: &mut Rng, m: &mut Vec<String>) {
+    for _ in 0..6 {
+        let v = crate::gen::gen_value(r, &crate::gen::VCFG_ANY, 3);
+        if crate::oracle::nesting(&v) > 30 { continue; }
+        let got = catch_unwind(AssertUnwindSafe(|| serde_lexpr::from_value::<AnyVal>(&v)));
+        match (got, any_view(&v)) {
+            (Err(_), _) => m.push(format!("FAIL C18 from_value into a self-describing target panicked on {}", v)),
+            (Ok(Ok(a)), Some(w)) => if a != w { m.push(format!("FAIL C18 deserialize_any presents {} as {:?}, expected {:?}", v, a, w)); },
+            (Ok(Ok(a)), None) => m.push(format!("FAIL C18 deserialize_any accepted a symbol or keyword inside {} as {:?}", v, a)),
+            (Ok(Err(e)), Some(_)) => m.push(format!("FAIL C18 deserialize_any rejected {}: {}", v, e)),
+            (Ok(Err(e)), None) => if format!("{:?}", e.classify()) != "Data" { m.push(format!("FAIL C18 error category {:?} for a symbol inside {}", e.classify(), v)); },
+        }
+    }
+    // serde-lexpr's text API reports the parser's error: same category, same location, the I/O error kept as source
+    for text in ["(1 2", "\"abc", "#", "(1 . )", ")", "1x", "#\\foo", "", "  ; only a comment", "(a . b c)", "1 2"] {
+        let real = serde_lexpr::from_str::<Vec<u8>>(text);
+        let want = lexpr::from_str(text);
+        match (real, want) {
+            (Err(e), Err(p)) => {
+                let cat = format!("{:?}", e.classify());
+                let pc = format!("{:?}", p.classify());
+                let loc = (e.location().map(|l| (l.line(), l.column())), p.location().map(|l| (l.line(), l.column())));
+                if cat != pc || loc.0 != loc.1 { m.push(format!("FAIL C19 serde_lexpr::from_str({:?}) reports {} at {:?}, the parser reports {} at {:?}", text, cat, loc.0, pc, loc.1)); }
+                if std::error::Error::source(&e).is_none() { m.push(format!("FAIL C19 serde_lexpr error for {:?} has no source", text)); }
+                let _ = format!("{} {:?}", e, e);
+            }
+            (Ok(_), Err(p)) => m.push(format!("FAIL C19 serde_lexpr::from_str({:?}) succeeded although the parser fails with {}", text, p)),
+            _ => {}
+        }
+    }
+    // a failing reader: I/O category, the error kept as source; a failing writer: an error, not success
+    let rd = crate::ops::make_reader("x2", b"(1 2 3)");
+    match serde_lexpr::from_reader::<Vec<u8>>(rd) {
+        Err(e) => {
+            if format!("{:?}", e.classify()) != "Io" || e.location().is_some() { m.push(format!("FAIL C06 serde_lexpr::from_reader on a failing reader reports {:?} {}", e.classify(), e)); }
+            if std::error::Error::source(&e).is_none() { m.push("FAIL C06 serde_lexpr I/O error has no source".into()); }
+        }
+        Ok(x) => m.push(format!("FAIL C06 serde_lexpr::from_reader on a failing reader returned {:?}", x)),
+    }
+    let rd = crate::ops::make_reader("x9", b"(1 2 3)");
+    let a = serde_lexpr::from_reader_custom::<Vec<u8>>(rd, lexpr::parse::Options::default()).ok();
+    if a != Some(vec![1, 2, 3]) || serde_lexpr::from_slice_custom::<Vec<u8>>(b"(1 2 3)", lexpr::parse::Options::elisp()).ok() != a { m.push("FAIL C04 serde_lexpr::from_reader_custom / from_slice_custom disagree with from_str".into()); }
+    struct Full;
+    impl std::io::Write for Full { fn write(&mut self, _: &[u8]) -> std::io::Result<usize> { Err(std::io::Error::new(std::io::ErrorKind::Other, "full")) } fn flush(&mut self) -> std::io::Result<()> { Ok(()) } }
+    match serde_lexpr::to_writer_custom(Full, &vec![1u8, 2], lexpr::print::Options::elisp()) {
+        Err(e) => if format!("{:?}", e.classify()) != "Io" { m.push(format!("FAIL C07 serde_lexpr::to_writer_custom on a failing sink reports category {:?}", e.classify())); },
+        Ok(()) => m.push("FAIL C07 serde_lexpr::to_writer_custom on a failing sink reported success".into()),
+    }
+    let mut out = Vec::new();
+    if serde_lexpr::to_writer_custom(&mut out, &vec![1u8, 2], lexpr::print::Options::elisp()).is_err() || out != serde_lexpr::to_vec_custom(&vec![1u8, 2], lexpr::print::Options::elisp()).unwrap() {
+        m.push("FAIL C07 serde_lexpr::to_writer_custom differs from to_vec_custom".into());
+    }
+}
+
 pub fn run(seed: u64) -> Vec<String> {
     let mut r = Rng::new(seed);
     let mut m = Vec::new();
+    any_checks(&mut r, &mut m);
     let b = |r: &mut Rng| -> u8 { *r.pick(&[0u8, 1, 9, 10, 127, 128, 255, 42]) };
     let v4 = Ipv4Addr::new(b(&mut r), b(&mut r), b(&mut r), b(&mut r));
     let mut seg = [0u16; 8]; for s in seg.iter_mut() { *s = *r.pick(&[0u16, 1, 0xffff, 0x2001, 0xdb8, 10]); }
